@@ -31,6 +31,7 @@ Explains(e) ==
      \/ e.op = "cmp"  /\ e.c = (IF e.a < e.b THEN -1 ELSE IF e.a > e.b THEN 1 ELSE 0) /\ e.eq = (e.a = e.b)
                       /\ LET ka == <<IsoYearOf(e.a), IsoWeekOf(e.a)>>  kb == <<IsoYearOf(e.b), IsoWeekOf(e.b)>> IN
                          /\ e.ic = LexCmp(ka, kb) /\ e.ieq = (ka = kb)
+                         /\ ((e.a = e.b) => e.hasheq) /\ ((ka = kb) => e.ihasheq)        \* equal values hash equally
                          /\ (e.a <= e.b => e.ic <= 0)              \* ISO weeks order chronologically
 Init == l = 1
 Next == /\ l <= Len(Rec) /\ Report(l, Explains(Ev)) /\ l' = l + 1
